@@ -155,6 +155,10 @@ static int on_term_mouse(TickitTerm *term, TickitEventFlags flags, void *_info, 
   DEBUG_LOGF("Im", "Mouse event %s %d @%d,%d (mod=%02x)",
       evnames[info->type], info->button, info->col, info->line, info->mod);
 
+  /* Handlers may drop the last reference to the root window; it is still
+   * needed between the dispatches below */
+  tickit_window_ref(win);
+
   if(info->type == TICKIT_MOUSEEV_PRESS) {
     /* Save the last press location in case of drag */
     root->mouse_last_button = info->button;
@@ -212,6 +216,8 @@ static int on_term_mouse(TickitTerm *term, TickitEventFlags flags, void *_info, 
 
     _handle_mouse(root->drag_source_window, &draginfo);
   }
+
+  tickit_window_unref(win);
 
   return !!handled;
 }
